@@ -25,6 +25,7 @@ func checkC08(c *Ctx) {
 
 	c.Rule("C08/R11", "extractors keep no state between results: no closure built by the extractor constructors writes memory it captured (a remembered 'last name' aliases the reader's reused line buffer, so a later benchmark gets an earlier one's key)")
 	c.Rule("C08/R12", "the name is returned unchanged only when nothing is to be left out: every path on which the excluding .fullname extractor returns the full name as it is has established that either GOMAXPROCS is not excluded or the name carries no '-' (the -N suffix has no '/', so a test for '/' alone cannot stand in for it)")
+	c.Rule("C08/R14", "exclusions only grow: nothing deletes from the parser's set of claimed configuration keys or stores anything but true into it, and the list of claimed name keys is only ever appended to")
 	c.Rule("C08/R13", "every projection starts from an empty row: before the projection functions run, the whole row buffer is reset (a loop storing \"\" into every element, or clear), so a field no function assigns for this result reads as missing rather than as the previous result's value")
 	c.Rule("C08/R10", "trimmed values are read with care: only the reviewed accessors (Key.Get, Key.string, keyNode.equalRow) index a key's stored values, everything else reads through Key.Get; where a walk over fields meets a field beyond the stored values it skips that field and continues")
 	c.Rule("C08/R9", "keys see every field: the flattened-field cache that Key.String, StringValues and the residue rely on is rebuilt whenever a field is added (same rule as C09/R10: builder leaves non-nil, reset guarded by != nil)")
@@ -56,6 +57,7 @@ func checkC08(c *Ctx) {
 	}
 	c08Untransformed(c, p)
 	c08RowReset(c, p)
+	c08ExclusionsGrow(c, p)
 	closuresKeepNoState(c, p, "C08/R11", ctors, 2, "an extractor writes memory it captured (at %s): whatever it remembers of one result — the name it last saw is a view into the reader's reused line buffer — is stale or overwritten when the next result arrives, so a different benchmark can be given the previous one's key")
 }
 
@@ -1262,4 +1264,57 @@ func c08TrimExits(lp *loopInfo, isQ, isBuf func(ssa.Value) bool) bool {
 		}
 	}
 	return good && nExits == 2
+}
+
+// c08ExclusionsGrow (C08/R14): the keys other projections have claimed are never forgotten. A projection built earlier
+// relies on them (its .config and .fullname leave them out), so the parser's exclusion sets only grow: nothing in
+// benchproc deletes from ProjectionParser.configKeys, stores false into it, or assigns fullnameKeys anything but an
+// append onto itself (or its initial value).
+func c08ExclusionsGrow(c *Ctx, p *Prog) {
+	const R = "C08/R14"
+	cfgF := p.Field("benchproc", "ProjectionParser", "configKeys")
+	fullF := p.Field("benchproc", "ProjectionParser", "fullnameKeys")
+	if cfgF == nil || fullF == nil {
+		c.Undecided(R, "anchor:ProjectionParser.configKeys/fullnameKeys", "", "not found")
+		return
+	}
+	n := 0
+	for _, fn := range p.Funcs("benchproc") {
+		eachInstr(fn, func(_ *ssa.BasicBlock, in ssa.Instruction) {
+			switch x := in.(type) {
+			case *ssa.Call:
+				if bi, ok := x.Call.Value.(*ssa.Builtin); ok && (bi.Name() == "delete" || bi.Name() == "clear") {
+					if f, _ := loadOfField(x.Call.Args[0]); f == cfgF {
+						n++
+						c.Bad(R, fmt.Sprintf("%s:forgets-config-key#%d", fnName(fn), n), p.pos(x.Pos()), "a key is removed from the set of configuration keys claimed by projections: a projection parsed earlier that named this key no longer keeps it out of .config (and of the residue), so the same value is counted in two places and keys that should be equal differ")
+					}
+				}
+			case *ssa.MapUpdate:
+				if f, _ := loadOfField(x.Map); f == cfgF {
+					n++
+					v, isConst := x.Value.(*ssa.Const)
+					c.Check(isConst && v.Value != nil && constant.BoolVal(v.Value), R, fmt.Sprintf("%s:claims-config-key#%d", fnName(fn), n), p.pos(x.Pos()), "a claimed key is recorded as true", "a claimed configuration key is recorded with a value that is not the constant true")
+				}
+			case *ssa.Store:
+				f, _ := fieldOfAddr(x.Addr)
+				if f != fullF {
+					return
+				}
+				n++
+				okGrow := false
+				if k, ok := x.Val.(*ssa.Const); ok && k.IsNil() && fn.Name() != "Parse" {
+					okGrow = true // initial value in a constructor
+				}
+				if call, ok := x.Val.(*ssa.Call); ok {
+					if bi, ok := call.Call.Value.(*ssa.Builtin); ok && bi.Name() == "append" {
+						if f2, _ := loadOfField(call.Call.Args[0]); f2 == fullF {
+							okGrow = true
+						}
+					}
+				}
+				c.Check(okGrow, R, fmt.Sprintf("%s:claims-name-key#%d", fnName(fn), n), p.pos(x.Pos()), "the list of claimed name keys grows by append", "the list of name keys claimed by projections is assigned something other than an append onto itself (truncated, replaced): a projection parsed earlier loses its exclusions from .fullname")
+			}
+		})
+	}
+	c.Floor(R, "writes to the parser's exclusion sets", n, 2)
 }
